@@ -121,6 +121,8 @@ def rust_display_num(v):
     if isinstance(v, int):
         return str(v)
     if math.isfinite(v) and v == int(v) and abs(v) < 1e15:
+        if v == 0 and math.copysign(1.0, v) < 0:
+            return "-0"          # Rust prints the sign of negative zero
         return str(int(v))
     r = repr(v)
     if "e" in r or "E" in r:
@@ -335,7 +337,7 @@ class Project:
         target = self.expand(tns, tloc, tv, stack + (ident,))
         args = {}
         for name, a in (p[2] or {}).items():
-            args[name.strip()] = self.expand(ns, loc, a, stack + (ident,))
+            args[name.strip()] = self.expand(ns, loc, a, stack)
         res = self.subst(target, args, tloc)
         if res[0] == "str":
             return list(res[1])
@@ -681,6 +683,9 @@ def spec_contains(ty, s, n):
 def select_range_branch(av, n):
     ty = av[1] or "i32"
     if ty in FLOAT_TYPES:
+        if isinstance(n, int):
+            # a JSON integer is not accepted as the count of a float range
+            raise ExpectError("InvalidCountArgType")
         n = float(n)
         if ty == "f32":
             import struct
